@@ -16,9 +16,12 @@
    asymmetric); likewise associativity of Join, the placement of a FILTER before or
    after a join, and "pre-binding = a VALUES row"; the prepared Query object as a
    state machine whose evaluations do not change it (tied by snapshots of the real
-   object's tree).  NOT proved: invariance under renaming (C15_rename), the
+   object's tree); store independence: the model parametrised by the store's enumeration
+   function gives the same answer for every enumeration that hands out each matching triple
+   once (all operators except OFFSET), and Memory / SimpleMemory (C01) satisfy that.
+   NOT proved: invariance under renaming (C15_rename), the
    "never forgotten" half of initBindings (not in the model). *)
-From RV Require Import Sparql.VariantProofs Sparql.PreparedProofs.
+From RV Require Import Sparql.VariantProofs Sparql.PreparedProofs Sparql.StoreIndep.
 
 Theorem C15_bgp_perm : forall ds g ts ts',
   Permutation ts ts' -> Permutation (eval_bu ds g (BGP ts)) (eval_bu ds g (BGP ts')).
@@ -177,6 +180,64 @@ Print Assumptions C15_prepared_spec_reading.
 Theorem C15_prepared_spec_model_glue : forall c, spec_ok_prep c (model_obs_prep c) = true.
 Proof. exact spec_ok_prep_model. Qed.
 Print Assumptions C15_prepared_spec_model_glue.
+
+(* ---- store independence (Sparql/StoreIndep.v) ----
+   The top-down model reads the data only through Graph.triples(pattern) in evalBGP.
+   [eval_td_en En] is the model with that lookup replaced by an arbitrary enumeration
+   function [En : graph -> pattern -> list triple]; [enum_ok En c]: on every graph of the
+   case, for every pattern, En hands out the matching triples, each once, in SOME order.
+   Then the answer is the model's, whatever the order - for every operator of the model
+   (BGP with its run-time sort, lazy and hash join, OPTIONAL with its second test, FILTER,
+   UNION, MINUS, BIND, VALUES, sub-SELECT, GRAPH, DISTINCT, all expressions incl. EXISTS)
+   except Slice (OFFSET), where the order of the enumeration is observable: [no_slice].
+   _partial for that exclusion only. *)
+Theorem C15_store_model_partial : forall En c, enum_ok En c -> no_slice (c_alg c) = true ->
+  obs_eqb (model_obs_en En c) (model_obs c) = true.
+Proof. exact store_model. Qed.
+Print Assumptions C15_store_model_partial.
+
+Theorem C15_store_independent_partial : forall En1 En2 c,
+  enum_ok En1 c -> enum_ok En2 c -> no_slice (c_alg c) = true ->
+  obs_eqb (model_obs_en En1 c) (model_obs_en En2 c) = true.
+Proof. exact store_independent. Qed.
+Print Assumptions C15_store_independent_partial.
+
+(* the evaluator-level statement behind both: solution lists are permutations of each other,
+   under every context, on every graph of the family P *)
+Theorem C15_enum_independent_partial : forall En ds (P : graph -> Prop),
+  (forall g, P g -> forall s p o, Permutation (En g s p o) (g_triples g s p o)) ->
+  (forall ng, In ng (ds_named ds) -> P (snd ng)) ->
+  forall p, no_slice p = true -> forall g c, P g ->
+  Permutation (eval_td_en En ds g c p) (eval_td ds g c p).
+Proof. intros En ds P H1 H2 p. exact (proj1 (en_indep En ds P H1 H2) p). Qed.
+Print Assumptions C15_enum_independent_partial.
+
+(* the hypothesis [enum_ok] holds for the stores of C01: a Memory context and a SimpleMemory
+   store that satisfy their invariants and hold exactly the set g (C01_mem_triples_exact,
+   C01_simple_triples_exact; C01_history: every state reached by a history does).  The
+   auditable wrapper enumerates through the wrapped store's triples(); by
+   C18_over_memory_refines the wrapped Memory state holds exactly the quads of the
+   list-level model after every history, so C15_enum_memory applies to it as it stands. *)
+Theorem C15_enum_memory : forall (m : Store.Model.mem) k (g : graph),
+  Store.MemProofs.MemInv m -> NoDup g -> (forall t, Store.Model.mem_holds m k t = true <-> In t g) ->
+  forall s p o, Permutation (Store.Model.mem_triples m k (s, p, o)) (g_triples g s p o).
+Proof. exact enum_memory. Qed.
+Print Assumptions C15_enum_memory.
+
+Theorem C15_enum_simple : forall (m : Store.Model.smem) (g : graph),
+  Store.SimpleProofs.sm_inv m -> NoDup g -> (forall t, Store.SimpleProofs.sm_holds m t = true <-> In t g) ->
+  forall s p o, Permutation (Store.Model.sm_triples m (s, p, o)) (g_triples g s p o).
+Proof. exact enum_simple. Qed.
+Print Assumptions C15_enum_simple.
+
+(* ReadOnlyGraphAggregate enumerates its members one after the other: the bag union, i.e. the
+   enumeration of the graph [concat gs] - which is a SET (the same data as one graph) exactly
+   when the members are duplicate-free and pairwise disjoint (NoDup (concat gs)); with
+   overlapping members it is other data (a triple held twice), not another store *)
+Theorem C15_enum_aggregate : forall (gs : list graph) s p o,
+  flat_map (fun g => g_triples g s p o) gs = g_triples (concat gs) s p o.
+Proof. exact enum_aggregate. Qed.
+Print Assumptions C15_enum_aggregate.
 
 Example C15_nonvacuous :
   exists ts ts', ts <> ts' /\ Permutation ts ts'
